@@ -553,6 +553,21 @@ pub fn gen_c18(r: &mut Rng, thorough: bool, out: &mut Vec<String>) {
     schemas.push(O::Option(Box::new(O::Option(Box::new(O::U8)))));
     schemas.push(O::Map { key: Box::new(O::U8), val: Box::new(O::Bool) });
     schemas.push(O::Tuple(vec![O::Tuple(vec![].into()), O::U8].into()));
+    // "twin" enums: DIFFERENT enums that share a name and an arity (derive(Schema) names a type by its identifier
+    // only: motor::State / heater::State), the same variant names in another order or with other payloads, all
+    // reached by one value - anything keyed by (name, arity) instead of the schema node confuses them
+    {
+        use postcard_schema::schema::owned::{OwnedData as D, OwnedVariant as NV};
+        let var = |n: &str, d: D| NV { name: n.into(), data: d };
+        let e1 = O::Enum { name: "State".into(), variants: vec![var("On", D::Unit), var("Off", D::Newtype(Box::new(O::U8)))].into() };
+        let e2 = O::Enum { name: "State".into(), variants: vec![var("Off", D::Newtype(Box::new(O::U8))), var("On", D::Unit)].into() };
+        let e3 = O::Enum { name: "State".into(), variants: vec![var("Idle", D::Newtype(Box::new(O::U16))), var("On", D::Unit)].into() };
+        for (a, b) in [(&e1, &e2), (&e2, &e1), (&e1, &e3), (&e3, &e2)] {
+            schemas.push(O::Tuple(vec![a.clone(), b.clone()].into()));
+            schemas.push(O::Tuple(vec![O::Option(Box::new(a.clone())), b.clone(), a.clone()].into()));
+            schemas.push(O::Seq(Box::new(O::Tuple(vec![b.clone(), a.clone()].into()))));
+        }
+    }
     for i in 0..n {
         let s = if i < schemas.len() * 8 { schemas[i % schemas.len()].clone() } else { gen_schema(r, 1 + (i % 4) as u32, 1 + (i % 4) as u64) };
         // JSON side: type-correct, near-miss and unrelated values
